@@ -65,6 +65,8 @@ fn main() {
 		("C05", Some(c)) | ("C07", Some(c)) => println!("  case: {c}\n  re-run ./check {id} quick (deterministic) to reproduce"),
 		("C17", None) => checks::c17::run(ctx.clone()),
 		("C17", Some(c)) => checks::c17::replay(ctx.clone(), c),
+		("C06", None) => checks::c06::run(ctx.clone()),
+		("C06", Some(c)) => checks::c06::replay(ctx.clone(), c),
 		("C08", None) => checks::c08::run(ctx.clone()),
 		("C08", Some(c)) => checks::c08::replay(ctx.clone(), c),
 		("C09", None) => checks::c09::run(ctx.clone()),
